@@ -4,6 +4,7 @@ package gabi
 
 import (
 	"github.com/privacybydesign/gabi/big"
+	"github.com/privacybydesign/gabi/revocation"
 )
 
 // Accessors for the verification harness (compiled only with the build tag verif). They expose
@@ -24,6 +25,11 @@ func (d *DisclosureProofBuilder) VerifSetAttrRandomizer(i int, r *big.Int) {
 // VerifNonrevBuilder returns the non-revocation proof builder a disclosure proof builder consumed (nil if none).
 func (d *DisclosureProofBuilder) VerifNonrevBuilder() *NonRevocationProofBuilder {
 	return d.nonrevBuilder
+}
+
+// VerifCommit returns the non-revocation proof commitment of the builder.
+func (b *NonRevocationProofBuilder) VerifCommit() *revocation.ProofCommit {
+	return b.commit
 }
 
 // VerifState returns the accumulator index the builder is committed to and its alpha randomizer.
